@@ -227,7 +227,9 @@ func (r *runReport) finish() int {
 	fmt.Printf("property %s tier %s: %d obligations, %d discharged, %d violations, %d known findings, %d undecided, %d stale/out-of-subset functions; load %.1fs gen %.1fs solve %.1fs\n",
 		r.prop, r.tier, nClaimed+len(violations), nDischarged, len(violations), len(knownHits), len(undecided), len(stale), r.tLoad, r.tGen, r.tSolve)
 
-	if r.writeBaseline {
+	if r.writeBaseline && (len(violations) > 0 || len(toolErrors) > 0) {
+		fmt.Println("BASELINE-NOT-WRITTEN: the run has violations or tool errors")
+	} else if r.writeBaseline {
 		sort.Strings(proved)
 		base[r.prop] = proved
 		sort.Strings(coverLost)
